@@ -12,11 +12,11 @@ import (
 
 func init() {
 	register(&PropRules{
-		ID: "C15",
+		ID:      "C15",
 		Explain: "Structural necessary conditions of 'operations touch only their target; failures and read-only calls change nothing': (C15.1) the read-only store API (Exists, Authenticate, List, ListFull, Check, NewDir*, and the config loader) reaches no create/write/rename/delete/mkdir/sync primitive over the whole-program call graph, and the set of store functions that do is exactly the mutator set; (C15.2) the SASL callback, the LDAP bind handler, basic-auth and /api/authenticate reach the store only through Store.Authenticate, the LDAP server registers only a bind function, and the dispatcher's authenticate step reaches no store mutator by call edges (only through the upgrade enqueue); (C15.3) set-admin performs stat + rename (+ directory fsync) only; (C15.4) the aux lines are copied on every path to the rename; (C15.5) after the creating open of the final name every error exit removes that name again; (C15.6) no exit after the rename can report failure.",
-		Undec: []string{"byte-level equality of the directory before/after at run time", "which system calls fail when (only: every error exit is clean)", "the content of auxiliary data"},
-		Run:   runC15,
-		Floors: map[string]int{"C15.1": 6, "C15.2": 5, "C15.3": 1, "C15.4": 1, "C15.5": 1, "C15.6": 1},
+		Undec:   []string{"byte-level equality of the directory before/after at run time", "which system calls fail when (only: every error exit is clean)", "the content of auxiliary data"},
+		Run:     runC15,
+		Floors:  map[string]int{"C15.1": 6, "C15.2": 5, "C15.3": 1, "C15.4": 1, "C15.5": 1, "C15.6": 1},
 	})
 }
 
@@ -147,8 +147,8 @@ func storeMethodsCalled(p *an.Prog, root *ssa.Function) map[string]string {
 		if !p.InRepo(f) {
 			continue
 		}
-		for _, b := range f.Blocks {
-			for _, in := range b.Instrs {
+		for _, in := range an.DeepInstrs(f) {
+			{
 				ci, ok := in.(ssa.CallInstruction)
 				if !ok {
 					continue
@@ -189,14 +189,16 @@ func c152(c *an.Ctx, p *an.Prog) {
 		}
 		c.Check(len(bad) == 0, "C15.2", "frontend="+r.Name, p.Pos(r.Fn.Pos()), r.Kind+" entry point reaches the store only through Store.Authenticate", strings.Join(bad, "; "))
 	}
-	if n < 5 {
-		c.Undecided("C15.2", "roots", "-", fmt.Sprintf("UNRESOLVED: only %d authentication-only frontends discovered, expected 5 (2 SASL closures, LDAP bind, basic-auth, /api/authenticate)", n))
+	if pr := frontendRootsProblem(roots); pr != "" {
+		c.Undecided("C15.2", "roots", "-", "UNRESOLVED: "+pr)
+	} else if n < 4 {
+		c.Undecided("C15.2", "roots", "-", fmt.Sprintf("UNRESOLVED: only %d authentication-only frontends discovered (SASL callback, LDAP bind, basic-auth, /api/authenticate expected)", n))
 	}
 	// the LDAP server registers only a bind function
 	nld := 0
 	for _, fn := range pkgFns(p, mainPkg) {
-		for _, b := range fn.Blocks {
-			for _, in := range b.Instrs {
+		for _, in := range an.DeepInstrs(fn) {
+			{
 				ci, ok := in.(ssa.CallInstruction)
 				if !ok {
 					continue
